@@ -200,6 +200,7 @@ class UnitResult:
         self.samples = []
         self.inconclusive = []
         self.exhaustive_done = {}    # sweep name -> bool (completed)
+        self.sigcounts = {}
 
     def count(self, key, n=1):
         self.observed[key] = self.observed.get(key, 0) + n
@@ -214,7 +215,11 @@ class UnitResult:
         self.nontrivial.add(h64(canon))
 
     def violation(self, kind, feature, behaviour, case, expected=None, observed=None, note=""):
-        if len(self.violations) < 200:
+        # capped per signature, so that a frequent (possibly known) finding cannot starve a rare new one
+        key = "sigcount:" + json.dumps([kind, feature, behaviour])
+        n = self.sigcounts.get(key, 0)
+        self.sigcounts[key] = n + 1
+        if n < 6:
             self.violations.append({
                 "sig": [kind, feature, behaviour], "case": case, "expected": expected,
                 "observed": observed, "note": note})
@@ -234,9 +239,17 @@ class UnitResult:
                     cur |= v
             else:
                 self.observed[k] = self.observed.get(k, 0) + v
-        room = 400 - len(self.violations)
-        if room > 0:
-            self.violations.extend(o.violations[:room])
+        for k, v in o.sigcounts.items():
+            self.sigcounts[k] = self.sigcounts.get(k, 0) + v
+        per_sig = {}
+        for v in self.violations:
+            k = json.dumps(v["sig"])
+            per_sig[k] = per_sig.get(k, 0) + 1
+        for v in o.violations:
+            k = json.dumps(v["sig"])
+            if per_sig.get(k, 0) < 12 and len(self.violations) < 2000:
+                self.violations.append(v)
+                per_sig[k] = per_sig.get(k, 0) + 1
         for s in o.samples:
             if len(self.samples) < 10:
                 self.samples.append(s)
@@ -325,8 +338,8 @@ def main_check(prop, modname, tier, seed):
                 hit = k
                 break
         if hit:
-            matched.setdefault(hit["id"], [hit, 0])
-            matched[hit["id"]][1] += 1
+            n = total.sigcounts.get("sigcount:" + json.dumps(list(v["sig"])), 1)
+            matched[hit["id"]] = [hit, n]
         else:
             new_violations.append(v)
     for kid, (k, n) in sorted(matched.items()):
@@ -375,7 +388,8 @@ def main_check(prop, modname, tier, seed):
             "held on the executions listed here, not a proof; driver runs on an 8 MiB stack",
             "Python reference models in /verif/monitors are trusted"],
         "wall_s": round(wall, 2),
-        "violations": len(new_violations),
+        "violations": sum(n for k, n in total.sigcounts.items()
+                          if not any(json.dumps(list(kk["signature"])) == k[len("sigcount:"):] for kk in known)),
     }
     os.makedirs(EVIDENCE, exist_ok=True)
     tmp = os.path.join(EVIDENCE, f".{prop}.json.tmp")
